@@ -31,7 +31,9 @@ ASSUME = [
     'nearest to 1/sqrt(2 pi) (what a derivative tree can express; |c*sqrt(2 pi) - 1| < 2^-53). The engine itself uses the 10-digit '
     'constant 0.3989422804 (relative deviation 3.6e-12, below the tolerance of the stream)',
     'IEEE rounding inside the engine is covered by the relative tolerance of the membership test (2^-30 for values and first '
-    'derivatives, 2^-24 for second derivatives, relative to max(|y|, 1)), not modelled',
+    'derivatives, 2^-24 for second derivatives, relative to max(|y|, 1)), not modelled; an entry that fails this test is re-judged with '
+    'the magnitude-aware tolerance 2^-36 * (sum over the sub-trees of the model tree of |enclosure|): differences explained by cancellation '
+    'in an ill-conditioned evaluation are counted (ill_conditioned_entries), not reported',
     'differentiable formula = smooth fragment of Model/Deriv.v at an interior point (predicate dom, proved open: T02a_dom_open): comparisons, And/Or, min/max, '
     'logzero, Elem keys, ConditionalSum conditions, chosen alternative and availabilities only over parameter-free sub-trees; '
     'MonteCarlo / PanelLikelihoodTrajectory / Integrate / Derive are outside the fragment (C09 / C10)',
@@ -45,6 +47,47 @@ TRUSTED = [
 
 HEADER = ('From BV Require Import Model.Expr Model.EvalI Model.Deriv.\n'
           'Open Scope Z_scope. Open Scope string_scope.\n')
+
+# Conditioning pass (only for the entries that fail the strict test): M = sum over the sub-trees of the model tree of |enclosure| bounds
+# the magnitudes the engine's floating-point evaluation goes through (same sub-expressions, forward mode); a double that differs from the
+# enclosure by at most 2^-36 * M is within the rounding error of an ill-conditioned evaluation (cancellation) and nothing is claimed.
+COND_HEADER = HEADER + '''
+Definition imag (v : ival) : I.type := match v with VI i => I.abs i | _ => I.nai end.
+Fixpoint evalVM (e : expr) (en : denv) {struct e} : ival * I.type :=
+  match e with
+  | Node h kids =>
+      let r := map (fun k => evalVM k en) kids in
+      let vs := map fst r in
+      let m := fold_right (fun x acc => I.add prec (snd x) acc) izero r in
+      let v := match h, vs with
+               | HNum d, [] => VI (I_of_dyadic d)
+               | HBeta n _, [] => ilook n (d_beta en)
+               | HVar n, [] => ilook n (d_var en)
+               | HBin op, [a; b] => ibin op a b
+               | HUn MonteCarlo, _ | HUn PanelTraj, _ => VNaN
+               | HUn op, [a] => iun PhiI_none op a
+               | HPowC c, [a] => ipowc c a
+               | HBelongs s, [a] => ibelongs s a
+               | HMultSum, _ => isum vs
+               | HCondSum, _ => icondsum vs
+               | HElem keys, _ => ielem keys vs
+               | HLinUtil, _ => ilinutil vs
+               | HLogLogit uk ak, _ => iloglogit uk ak vs
+               | _, _ => VNaN
+               end in
+      (v, I.add prec (imag v) m)
+  end.
+Inductive cverdict := COk | CBad | CUnk.
+Definition cond_judge (t : expr) (en : denv) (y : dyadic) : cverdict :=
+  let '(v, M) := evalVM t en in
+  match v, M with
+  | VI (Float.Ibnd _ _ as i), Float.Ibnd _ _ =>
+      let d := I.abs (I.sub prec (I_of_dyadic y) i) in
+      let tol := I.mul prec M (I.power_int prec (I.fromZ prec 2) (-36)) in
+      match isign (I.sub prec tol d) with SPos | SZero => COk | SNeg => CBad | SUnk => CUnk end
+  | _, _ => CUnk
+  end.
+'''
 
 REL_F, REL_G, REL_H = -30, -30, -24
 TWO = Fraction(2)
@@ -581,11 +624,60 @@ KNOWN_REWRITES = [
 ]
 
 
+def conditioning_pass(ctx, st, suspects):
+    """re-judge the failing entries with the magnitude-aware tolerance; returns the suspects that still fail"""
+    import re
+    reqs = []
+    for ci, (c, names, r, bad) in suspects.items():
+        for (what, ri, ent, y) in bad:
+            if finite(y):
+                reqs.append((ci, what, ri, ent, y))
+    if not reqs:
+        return suspects
+    lines = []
+    for (ci, what, ri, ent, y) in reqs:
+        c, names = suspects[ci][0], suspects[ci][1]
+        tree = strip_sids(c['tree'])
+        benv = {k: v['value'] for k, v in c['betas'].items()}
+        term = json_to_coq(tree)
+        if what == 'g':
+            term = f'(D (WBeta {coq_string(names[ent[0]])}) {term})'
+        elif what == 'h':
+            term = f'(D (WBeta {coq_string(names[ent[1]])}) (D (WBeta {coq_string(names[ent[0]])}) {term}))'
+        lines.append(f'(cond_judge {term} {coq_env({"beta": benv, "var": c["rows"][ri]})} {coq_dy(y)})')
+    files = {}
+    B = 40
+    for j in range(0, len(lines), B):
+        files[f'c02cond_{j // B}'] = COND_HEADER + 'Eval vm_compute in [\n' + ';\n'.join(lines[j:j + B]) + '].\n'
+    outs = ctx.coq_eval_many(files, timeout=1500)
+    toks = []
+    for j in range(0, len(lines), B):
+        ok, out = outs[f'c02cond_{j // B}']
+        t = re.findall(r'\b(COk|CBad|CUnk)\b', out) if ok else []
+        if len(t) != len(lines[j:j + B]):
+            raise RuntimeError('C02: conditioning pass failed: ' + out[-1200:])
+        toks += t
+    keep = {}
+    for (ci, what, ri, ent, y), t in zip(reqs, toks):
+        if t == 'COk':
+            st.extra['ill_conditioned_entries'] = st.extra.get('ill_conditioned_entries', 0) + 1
+        elif t == 'CUnk':
+            st.extra['conditioning_unknown_entries'] = st.extra.get('conditioning_unknown_entries', 0) + 1
+        else:
+            keep.setdefault(ci, (suspects[ci][0], suspects[ci][1], suspects[ci][2], []))[3].append((what, ri, ent, y))
+    for ci, (c, names, r, bad) in suspects.items():
+        nf = [x for x in bad if not finite(x[3])]
+        if nf:
+            keep.setdefault(ci, (c, names, r, []))[3].extend(nf)
+    return keep
+
+
 def investigate(ctx, st, suspects):
     """failing-input search on the cases with an entry outside its enclosure.  Every such entry is a violation; its class is
     refined: when the engine becomes right on EVERY entry once x**2 is rewritten x*x (resp. a bioLinearUtility with a repeated
     parameter is rewritten as a sum of products -- same mathematical function, same model tree), the violation is attributed
     to that operator (known findings).  Finite differences (third opinion) are attached to the report."""
+    suspects = conditioning_pass(ctx, st, suspects)
     items = list(suspects.items())
     extra_cases, index = [], []
     for ci, (c, names, r, bad) in items:
